@@ -1198,7 +1198,19 @@ class Exec:
                     else:
                         bit = (x + y) % 2
                     bits.append(bit * 2 ** i)
-                return zsum(bits)
+                res = zsum(bits)
+                if self.spec_depth == 0:
+                    # name the result and state, bit by bit, the law that defines it (theorems of the sum above; they spare the
+                    # solver from re-deriving "bit i of a sum of distinct powers of two" through div/mod chains)
+                    t = fresh('bitop')
+                    st.facts.append(t == res)
+                    st.facts.append(z3.And(t >= 0, t < 2 ** w))
+                    for i in range(w):
+                        x, y = (a / 2 ** i) % 2 == 1, (b / 2 ** i) % 2 == 1
+                        law = z3.And(x, y) if T is ast.BitAnd else z3.Or(x, y) if T is ast.BitOr else z3.Xor(x, y)
+                        st.facts.append(((t / 2 ** i) % 2 == 1) == law)
+                    return t
+                return res
         raise ToolLimit('bitop on unbounded ints')
 
     def repeat(self, l, r, st):
